@@ -106,7 +106,14 @@ pub fn run(ctx: &mut Ctx) {
     let examples = ctx.share(ctx.tier.pick(16_000, 400_000));
     let out = ctx.workdir.join("py_out.json");
     let journal = ctx.workdir.join("current.json");
-    let st = python_cmd()
+    // the extension's global pool reads RAYON_NUM_THREADS at first use: the shards run with different pool sizes
+    let pool = ["", "1", "2", "3", "", "5", "7", ""][ctx.shard % 8];
+    let mut pc = python_cmd();
+    if !pool.is_empty() {
+        pc.env("RAYON_NUM_THREADS", pool);
+    }
+    ctx.out.classes.insert(format!("python-pool-size-{}", if pool.is_empty() { "default" } else { pool }), 1);
+    let st = pc
         .args(["--seed", &ctx.seed.to_string(), "--shard", &ctx.shard.to_string(), "--examples", &examples.to_string()])
         .arg("--out")
         .arg(&out)
